@@ -86,6 +86,9 @@ Judge(s, e) ==
        ELSE IF o.scale > o.scale_tol THEN "lle.not_proportional_to_feed"
        ELSE IF ~o.top_ok THEN "lle.top_chemical_in_wrong_phase"
        ELSE IF o.two /\ o.act > ActTol THEN "lle.activities_differ"
+       \* o.fresh: difference to a NEW stream given the same material and temperature (quanta): whatever the solver remembers from
+       \* earlier calls, the call returns the equilibrium of THIS temperature and composition
+       ELSE IF o.fresh > o.scale_tol \div 10 THEN "lle.differs_from_new_stream"
        ELSE "ok"
   ELSE \* sle
        IF o.moved_other THEN "sle.non_solute_moved"
